@@ -65,6 +65,9 @@ class Ref(object):
         self.wip = bool(cfg.get("wip"))
         self.stop = bool(cfg.get("stop")) or self.wip
         self.cafs = bool(cfg.get("cafs"))
+        # continue_after_failed_step is documented for *failed* steps; whether execution also continues after an
+        # undefined / pending / interrupted step is not stated -> two admissible variants (see C02)
+        self.cafs_all = bool(cfg.get("cafs_all", True))
         self.faults = faults or {}
         self.cleanups = cleanups or {}
         self.with_hooks = hooks
@@ -309,11 +312,13 @@ class Ref(object):
                     sts.append({"undefined"})
                     self.undefined_seen = True
                     failed = True
-                    going = False       # (cafs: statement silent -> see compare: tail relaxed)
+                    going = self.cafs and self.cafs_all
                     continue
                 st = None
                 bfail = self.hook("before_step", (path, idx))
-                if not bfail:
+                if not bfail and o == "convert":
+                    st = "error"            # the argument converter raised: the step function is never called
+                elif not bfail:
                     self.calls.append((path, sid))
                     for cid, raising, layer in self.cleanups.get(("step", path, idx), ()):
                         self.add_cleanup(cid, raising, layer)
@@ -344,7 +349,7 @@ class Ref(object):
                 sts.append({st})
                 if st in FAILING:
                     failed = True
-                    going = self.cafs
+                    going = self.cafs and (self.cafs_all or (st in ("failed", "error", "hook_error") and o != "kbi"))
                 elif explicit:
                     going = False
         if hooks_called:
@@ -424,20 +429,13 @@ def compare(prog, ref, obs, what=("verdict", "steps", "calls", "status", "hooks"
                 continue
             for i, (g, acc) in enumerate(zip(got, sts)):
                 if g not in acc:
-                    if ref.cafs and any(x & FAILING for x in [set(a) for a in sts[:i]]):
-                        # continue_after_failed_step: behaviour after undefined/pending is unspecified
-                        if any(("undefined" in a or "pending" in a) for a in sts[:i]):
-                            continue
                     v.append(({"subcheck": "steps", "clause": "status", "config": cfgs,
                                "got": g, "want": "|".join(sorted(acc))},
                               "scenario %r step #%d: status %s, expected %s (all steps: %s)"
                               % (path, i, g, sorted(acc), got)))
                     break
     if "calls" in what and obs["calls"] != ref.calls:
-        relaxed = False
-        if ref.cafs:
-            relaxed = _cafs_relaxed(ref, obs)
-        if not relaxed:
+        if True:
             i = next((k for k, (a, b) in enumerate(zip(obs["calls"], ref.calls)) if a != b),
                      min(len(obs["calls"]), len(ref.calls)))
             v.append(({"subcheck": "calls", "clause": "call-log", "config": cfgs,
